@@ -41,19 +41,21 @@ Section Sdm.
     ((fx, fy, fz), vlen m wx wy wz).
 
   (* the loop over operators of calc_sdm for one ordered pair: state = (mind, best (dist, n)) *)
-  Definition sdm_step (m : metric) (a1 a2 : satom) (st : T * option (T * nat)) (ns : nat * sop) : T * option (T * nat) :=
+  (* same = "a1 and a2 are the same atom of the list" (i == j in calc_sdm): only then a distance of (nearly) zero is the atom's own
+     image and is skipped; two different atoms on one site (a shared site) are a contact of length zero (as repaired) *)
+  Definition sdm_step (m : metric) (same : bool) (a1 a2 : satom) (st : T * option (T * nat)) (ns : nat * sop) : T * option (T * nat) :=
     let '(mind, best) := st in
     let '(n, s) := ns in
     let dk := snd (candidate m s a1 a2) in
     if ltb (cst 53 10) dk then st
     else let dk' := match n with 0%nat => dk | _ => dk + cst 1 10000 end in
-         if ltb (cst 1 100) dk' && negb (ltb mind dk') then (dk', Some (dk', n)) else st.
+         if (ltb (cst 1 100) dk' || negb same) && negb (ltb mind dk') then (dk', Some (dk', n)) else st.
 
   Fixpoint number_from {A} (i : nat) (l : list A) : list (nat * A) :=
     match l with [] => [] | x :: r => (i, x) :: number_from (S i) r end.
 
-  Definition pair_min (m : metric) (ops : list sop) (a1 a2 : satom) : option (T * nat) :=
-    snd (fold_left (sdm_step m a1 a2) (number_from 0 ops) (cst 1000000 1, None)).
+  Definition pair_min (m : metric) (ops : list sop) (same : bool) (a1 a2 : satom) : option (T * nat) :=
+    snd (fold_left (sdm_step m same a1 a2) (number_from 0 ops) (cst 1000000 1, None)).
 
   (* bond criterion of calc_sdm *)
   Definition bond_limit (a1 a2 : satom) : T :=
@@ -63,7 +65,7 @@ Section Sdm.
   Record sitem := { it_a1 : nat; it_a2 : nat; it_dist : T; it_n : nat; it_cov : bool }.
 
   Definition pair_item (m : metric) (ops : list sop) (i j : nat) (a1 a2 : satom) : option sitem :=
-    match pair_min m ops a1 a2 with
+    match pair_min m ops (Nat.eqb i j) a1 a2 with
     | None => None
     | Some (d, n) => Some {| it_a1 := i; it_a2 := j; it_dist := d; it_n := n; it_cov := ltb d (bond_limit a1 a2) |}
     end.
